@@ -286,12 +286,13 @@ def one_case(ctx, w, case, lines, impls, cases):
     rec = Recorder(ids)
     mon = root.deep_traverse(rec)
     events = rt.wait(mon.when_done())
-    impls.append(",".join(events) + " done")
     cases.append(case)
     # ---- build_manifest / deep-stats
     res = rt.wait(root.build_manifest().when_done())
     manifest = res["manifest"]
     stats = rt.wait(root.start_deep_stats().when_done())
+    impls.append(",".join(events) + " done %d,%d,%d,%d" % (stats["count-directories"], stats["count-files"],
+                                                          stats["count-literal-files"], stats["count-unknown"]))
     man_events = ["A%d@%s" % (ids.get(cap or b"<opaque>", -1), "/".join(nm(p) for p in path) or "-") for (path, cap) in manifest]
     if man_events != [e for e in events if e.startswith("A")]:
         ctx.disagree("build_manifest order differs from the recording walker's add_node order", case, man_events[:10], events[:10])
